@@ -263,6 +263,8 @@ type exec struct {
 
 	aggs    []*aggRec
 	singles map[[2]uint64]common.Root // (validator, epoch) -> data root
+	aggVoters map[[2]uint64]bool      // (validator, epoch) took part in an accepted aggregate
+	aggData   map[common.Root]bool    // data roots with an accepted aggregate
 	minEp   uint64
 
 	aslash []*phase0.AttesterSlashing
@@ -466,11 +468,30 @@ func (x *exec) doAtt(op *Op) bool {
 				x.viol("add/duplicate-aggregate-changed-pool", fmt.Sprintf("search result changed from %d to %d items after an exact duplicate", len(before), len(after)))
 				return false
 			}
-		} else if err == nil {
-			x.aggs = append(x.aggs, &aggRec{data: data, bits: att.AggregationBits.Copy(), sig: att.Signature, })
-			x.res.Stat("aggregates_accepted", 1)
 		} else {
-			x.res.Stat("aggregates_refused", 1)
+			// an aggregate for data the pool has no aggregate for yet, ALL of whose participants
+			// already took part in accepted aggregates of the same target epoch (necessarily for
+			// other data): every one of its votes is a conflicting second vote and must be reported
+			allVoted := !x.aggData[dr]
+			for _, pos := range op.Bits {
+				if !x.aggVoters[[2]uint64{uint64(comm[pos]), ep}] {
+					allVoted = false
+				}
+			}
+			if allVoted && err == nil {
+				x.viol("add/double-vote-aggregate-not-reported", fmt.Sprintf("aggregate for new data (slot %d index %d root %d): all %d participants already voted for other data in epoch %d, yet it was accepted silently", op.Slot, op.Idx, op.Root, len(op.Bits), ep))
+				return false
+			}
+			if err == nil {
+				x.aggs = append(x.aggs, &aggRec{data: data, bits: att.AggregationBits.Copy(), sig: att.Signature})
+				x.aggData[dr] = true
+				for _, pos := range op.Bits {
+					x.aggVoters[[2]uint64{uint64(comm[pos]), ep}] = true
+				}
+				x.res.Stat("aggregates_accepted", 1)
+			} else {
+				x.res.Stat("aggregates_refused", 1)
+			}
 		}
 	}
 	return true
@@ -797,7 +818,7 @@ func Execute(cfg *Config, ops []Op, opt core.Options) *core.Result {
 	cj, _ := json.Marshal(cfg)
 	sj, _ := json.Marshal(ops)
 	res.Config, res.Script = cj, sj
-	x := &exec{cfg: cfg, res: res, singles: map[[2]uint64]common.Root{}, pslash: map[uint64]*phase0.ProposerSlashing{}, exits: map[uint64]*phase0.SignedVoluntaryExit{},
+	x := &exec{cfg: cfg, res: res, singles: map[[2]uint64]common.Root{}, aggVoters: map[[2]uint64]bool{}, aggData: map[common.Root]bool{}, pslash: map[uint64]*phase0.ProposerSlashing{}, exits: map[uint64]*phase0.SignedVoluntaryExit{},
 		syncReq: map[uint64]map[uint64][]*altair.SyncCommitteeMessage{}, syncMay: map[uint64]map[uint64][]*altair.SyncCommitteeMessage{},
 		conReq: map[uint64][]*altair.SyncCommitteeContribution{}, conMay: map[uint64][]*altair.SyncCommitteeContribution{}}
 	x.ap = pool.NewAttestationPool(spec)
@@ -845,6 +866,16 @@ func Execute(cfg *Config, ops []Op, opt core.Options) *core.Result {
 			for k := range x.singles {
 				if k[1] < min {
 					delete(x.singles, k)
+				}
+			}
+			for k := range x.aggVoters {
+				if k[1] < min {
+					delete(x.aggVoters, k)
+				}
+			}
+			for _, r := range x.aggs {
+				if uint64(r.data.Target.Epoch) < min {
+					delete(x.aggData, r.data.HashTreeRoot(treeHash))
 				}
 			}
 			ok = x.checkSearch(nil, nil)
